@@ -66,6 +66,16 @@ DETECTED = {
     'C18-e': ['C18: H18h (added after the miss)'],
     'C19-e': ['C19: H19a prediction-changes-nothing with a forced state (added after the miss)'],
     'C20-e': ['C20: H20a entity-series-aligned'],
+    'C01-f': ['C01: H01h one-master-per-group (added after the miss)', 'C08: H08c-distribution'],
+    'C03-f': ['C03: H03d (added after the miss)'],
+    'C05-f': ['C05: H05-2 running-failure-strategy-applied (added after the miss)'],
+    'C06-f': ['C06: H06d with STARTING / BACKOFF (added after the miss)'],
+    'C08-f': ['C08: H08c-resync path-does-not-terminate (added after the miss)'],
+    'C09-f': ['C09: H09 everything-was-asked-to-stop with a STARTING process (added after the miss)'],
+    'C12-f': ['C12: H12-faults reported-location-is-true'],
+    'C16-f': ['C16: H16h exception:KeyError (added after the miss)'],
+    'C18-f': ['C18: H18i element-value-supersedes-the-option (added after the miss)'],
+    'C20-f': ['C20: H20a / H20p point-iff-period-elapsed'],
 }
 for line in open(sys.argv[1]):
     m = re.match(r'(C\d\d-\w): without=\[(.*?)\] with=\[(.*?)\] suite=\[(.*)\]', line.strip())
